@@ -605,7 +605,8 @@ def run(tier: str) -> Run:
     eff = Effects(repo)
     eff.solve()
     s_ = eff.summaries[rfi.fq]
-    r6.check(not s_.mutates, 'input not written', loc(rfi), {'writes_to': sorted(s_.mutates)}, key='no-mutation')
+    written6 = sorted(t for t in s_.mutates if t.startswith('p:'))
+    r6.check(not written6, 'input not written', loc(rfi), {'writes_to': written6}, key='no-mutation')
 
     # ---- R9: a fit does not depend on the fits made before it ------------------------------------------------------------
     r9 = run.rule('R9', 'the result for a spectrum does not depend on the spectra fitted before it: two fit_peaks calls in one world (module-level '
